@@ -2,6 +2,8 @@ package main
 
 import (
 	"fmt"
+	"go/types"
+	"sort"
 	"strings"
 
 	"golang.org/x/tools/go/ssa"
@@ -369,6 +371,50 @@ func c11ReadIndex(c *Check) {
 			}
 			name := derefStruct(fa.X.Type()).Field(fa.Field).Name()
 			c.Result(name == "To", "C11.F", "stepFollower modifies the forwarded message", fnName(stepFollower), p.site(st), "a forwarded request only gets its To field set", "field "+name)
+		}
+		// the same through helpers: besides To, only what send itself stamps on every outgoing message
+		send := p.Method("raft", "raft", "send")
+		msgT := p.Type("raftpb", "Message")
+		if send != nil && msgT != nil {
+			isMsgField := func(f *types.Var) bool {
+				st, _ := msgT.Underlying().(*types.Struct)
+				for i := 0; st != nil && i < st.NumFields(); i++ {
+					if st.Field(i) == f {
+						return true
+					}
+				}
+				return false
+			}
+			allowed := map[string]bool{"To": true}
+			for l, mask := range p.Effects(send).WMask {
+				if f, ok := l.(*types.Var); ok && isMsgField(f) && mask&(1<<1) != 0 {
+					allowed[f.Name()] = true
+				}
+			}
+			mBit := uint64(1) << 1
+			for _, in := range p.liveInstrsOf(stepFollower) {
+				ci, ok := in.(ssa.CallInstruction)
+				if !ok {
+					continue
+				}
+				var bad, wrote []string
+				for l, mask := range p.CallWrites(ci) {
+					f, ok := l.(*types.Var)
+					if !ok || !isMsgField(f) || mask&mBit == 0 {
+						continue
+					}
+					wrote = append(wrote, f.Name())
+					if !allowed[f.Name()] {
+						bad = append(bad, f.Name())
+					}
+				}
+				if len(wrote) == 0 {
+					continue
+				}
+				sort.Strings(bad)
+				sort.Strings(wrote)
+				c.Result(len(bad) == 0, "C11.F", "callee writes the forwarded message", fnName(stepFollower), p.site(in), "through the handled message a callee writes only To and what send stamps on every message", "writes "+strings.Join(wrote, ",")+"; not allowed: "+strings.Join(bad, ","))
+			}
 		}
 	}
 }
